@@ -94,6 +94,22 @@ def ossl_q(name, defines, unwind=140, budget=600, tiers=('quick', 'thorough'), c
                          'signature length': '0..134 bytes', 'key bits': 'any size_t satisfying the C09 floor'})
 
 
+IMPORT_UNITS = ['libjwt/openssl/jwk-parse.c', 'libjwt/jwt.c', 'libjwt/jwt-memory.c', 'libjwt/base64.c']
+IMPORT_MODELS = ['alloc', 'jansson_model', 'env', 'provider_stub_none', 'openssl_stubs', 'openssl_stubs_jwk']
+IMPORT_FUNCS = ['openssl_process_rsa', 'openssl_process_ec', 'openssl_process_eddsa', 'set_one_bn', 'set_one_octet',
+                'set_one_string', 'set_ec_pub_key', 'ec_crv_to_ossl_name', 'pctx_to_pem', 'jwt_base64uri_decode',
+                'base64_decode', 'jwt_strcmp']
+
+
+def import_q(name, kty, prop, slen=None, budget=900, tiers=('quick', 'thorough')):
+    maxm = {'RSA': 9, 'EC': 4, 'OKP': 3}[kty]
+    slen = slen or {'RSA': 5, 'EC': 8, 'OKP': 8}[kty]
+    return Query(name, 'jwk_import.c', IMPORT_UNITS, models=IMPORT_MODELS,
+                 defines=['KTY_' + kty, prop, 'VJ_MAXM=%d' % maxm, 'VJ_SLEN=%d' % slen, 'VF_CAP=%d' % (slen + 8), 'VO_WITH_JWK', 'VJ_CHECK_DEAD', 'VO_IMAX=8'],
+                 unwind=max(20, slen + 4), checks='memsafe-noconv', budget=budget, tiers=tiers,
+                 bounds={'kty': kty, 'members': 'each absent or of any JSON type', 'strings': '<= %d arbitrary bytes' % slen})
+
+
 CORE_FUNCS = ['jwt_checker_new', 'jwt_checker_setkey', 'jwt_checker_setcb', 'jwt_checker_verify', '__setkey_check',
               'jwt_new', 'jwt_free', 'jwt_parse', 'jwt_parse_head', 'jwt_parse_payload',
               'jwt_base64uri_decode_to_json', 'jwt_verify_complete', '__verify_config_post', '__verify_claims',
@@ -342,6 +358,8 @@ class C07(Spec):
                                ['SIDE_LOAD', 'SHAPE=%d' % sh, 'ROUTE=%d' % rt, 'PRE=%d' % pre], bounds=b)
                     q.unwindset = {f + '.0': 5 for f in LIST_LOOPS}
                     qs.append(q)
+        for kty in ('RSA', 'EC', 'OKP'):
+            qs.append(import_q('C07.item.%s' % kty.lower(), kty, 'PROP_C07'))
         qs.append(Query('C07.values', 'keyring.c', RING_UNITS, defines=['SIDE_VALUES', 'VJ_MAXM=4', 'VJ_SLEN=10', 'VF_CAP=16'],
                         unwind=13, checks='memsafe-noconv', budget=600,
                         bounds={'members': 'alg, use, key_ops, kid each absent or of any JSON type; key_ops array of <= 2 elements of any type; strings <= 10 bytes'}))
@@ -456,4 +474,18 @@ class C05(Spec):
         return qs
 
 
-PROPS.update({'C05': C05(), 'C20': C20(), 'C18': C18(), 'C07': C07(), 'C16': C16(), 'C15': C15(), 'C12': C12(), 'C10': C10(), 'C11': C11(), 'C13': C13(), 'C19': C19(), 'C09': C09(), 'C04': C04(), 'C02': C02(), 'C03': C03(), 'C06': C06(), 'C14': C14()})
+class C08(Spec):
+    functions = IMPORT_FUNCS + ['jwk_process_values', 'jwk_key_op_j', 'process_octet']
+
+    def queries(self, tier, bld):
+        qs = [import_q('C08.item.%s' % kty.lower(), kty, 'PROP_C08') for kty in ('RSA', 'EC', 'OKP')]
+        qs.append(Query('C08.values', 'keyring.c', RING_UNITS, defines=['SIDE_VALUES', 'VJ_MAXM=4', 'VJ_SLEN=10', 'VF_CAP=16'],
+                        unwind=13, checks='memsafe-noconv', budget=600,
+                        bounds={'members': 'alg, use, key_ops, kid each absent or of any JSON type; key_ops array of <= 2 elements; strings <= 10 bytes'}))
+        qs.append(Query('C08.oct', 'keyring.c', RING_UNITS, defines=['SIDE_OCT', 'VJ_MAXM=2', 'VJ_SLEN=12', 'VF_CAP=20'],
+                        unwind=16, checks='memsafe-noconv', budget=600,
+                        bounds={'k': 'any JSON type; strings of <= 12 arbitrary bytes (<= 9 key bytes)'}))
+        return qs
+
+
+PROPS.update({'C08': C08(), 'C05': C05(), 'C20': C20(), 'C18': C18(), 'C07': C07(), 'C16': C16(), 'C15': C15(), 'C12': C12(), 'C10': C10(), 'C11': C11(), 'C13': C13(), 'C19': C19(), 'C09': C09(), 'C04': C04(), 'C02': C02(), 'C03': C03(), 'C06': C06(), 'C14': C14()})
